@@ -23,6 +23,7 @@ import (
 	"verifharness/internal/ref"
 )
 
+// (a layout with chunks around and above 256 KiB and 1 MiB is drawn in 1 case of 40: indexes made with non-default chunk sizes)
 type Case struct {
 	Pieces   []gen.Piece `json:"pieces"`
 	Sizes    gen.Sizes   `json:"sizes"`
@@ -93,6 +94,22 @@ func genCase(t *rapid.T) Case {
 			{Kind: "rand", Len: rapid.IntRange(1, 40000).Draw(t, "nipost"), Seed: rapid.Uint64().Draw(t, "nis2")}}
 		c.FileKind = rapid.SampledFrom([]string{"sparse", "sparse", "sparse+symlink", ""}).Draw(t, "nikind")
 		c.Mod = rapid.SampledFrom([]string{"flipnull", "flipnull", "flipnull", "none", "extend", "trunc"}).Draw(t, "nimod")
+	}
+	if rapid.IntRange(0, 39).Draw(t, "bigchunks") == 0 {
+		// chunk sizes above the defaults (make -m 256:1024:4096 and the like): a few chunks around and above 256 KiB and 1 MiB
+		c.Tiling = nil
+		for i, n := 0, rapid.IntRange(1, 4).Draw(t, "bign"); i < n; i++ {
+			c.Tiling = append(c.Tiling, rapid.SampledFrom([]int{262143, 262144, 262145, 262145, 300000, 524288, 524289, 1048576, 1048577, 70000, 5}).Draw(t, "bigl"))
+		}
+		total := 0
+		for _, l := range c.Tiling {
+			total += l
+		}
+		c.Sizes = gen.Sizes{Min: 256 << 10, Avg: 1 << 20, Max: 4 << 20}
+		c.Pieces = []gen.Piece{{Kind: rapid.SampledFrom([]string{"rand", "rand", "text", "zero"}).Draw(t, "bigkind"), Len: total, Seed: rapid.Uint64().Draw(t, "bigseed")}}
+		if c.Mod == "flipnull" {
+			c.Mod = "flip"
+		}
 	}
 	if rapid.IntRange(0, 3).Draw(t, "cancel?") == 0 {
 		c.Cancel = -1
@@ -351,6 +368,12 @@ func run(c Case) (o hx.Outcome) {
 	if nch == 0 {
 		o.Class("empty-index")
 	}
+	for _, sp := range spans {
+		if sp.Len > 256<<10 {
+			o.Class("chunk>256KiB")
+			break
+		}
+	}
 	if mod != "none" && mod != "trunc" && mod != "extend" && boundary {
 		o.Class("damage-at-batch-boundary")
 	}
@@ -387,10 +410,11 @@ var spec = &hx.Spec[Case]{
 	Rule: "cases = (blob, index by reference chunker or arbitrary 1..8-byte tiling, n in 1..64, one modification: none/flip one bit/flip a bit inside a null chunk/truncate/extend/swap equal-size chunks/overwrite chunk; file stored plain or sparse (holes) and given by its path or through a symlink; digest SHA512-256 or SHA256; context never cancelled, cancelled before the call or at the k-th feed/batch hook hit); " +
 		"non-trivial = modified file whose damaged chunk is first/last of a verification batch (or last chunk), or an unmodified file with chunks/(10n) >= 1; distinct by (length, chunks, n, mod, chunk, position)",
 	Assumptions: []string{"oracle: VerifyIndex==nil iff file bytes equal the blob (direct comparison)", "chunk IDs computed with crypto/sha512 directly", "files are regular files on the scratch filesystem"},
-	Required:    []string{"mod:none", "mod:flip", "mod:trunc", "mod:extend", "mod:swap", "mod:overwrite", "batch>=1", "damage-at-batch-boundary", "file==blob", "file!=blob", "digest:sha256", "file:sparse:has-holes", "file:via-symlink", "damage-in-null-chunk:beyond-first-block", "cancel:before-call", "cancel:mid-run", "cancel:interrupted", "cancel:mismatch-not-accepted"},
+	Required:    []string{"chunk>256KiB", "mod:none", "mod:flip", "mod:trunc", "mod:extend", "mod:swap", "mod:overwrite", "batch>=1", "damage-at-batch-boundary", "file==blob", "file!=blob", "digest:sha256", "file:sparse:has-holes", "file:via-symlink", "damage-in-null-chunk:beyond-first-block", "cancel:before-call", "cancel:mid-run", "cancel:interrupted", "cancel:mismatch-not-accepted"},
 	Gen:         genCase,
 	Run:         run,
 	Watchdog:    hx.Pick(30*time.Second, 120*time.Second), // "accepts iff" includes returning at all
+	Journal:     true,                                     // ... and a panic in one of VerifyIndex's workers ends the process: the driver recovers the case
 }
 
 func allZero(b []byte) bool {
